@@ -35,6 +35,9 @@ BASE_ENV.pop("RUSTFLAGS", None)
 LANES = {
     "dbg": dict(toolchain=None, profile="dev", features=["std", "vclock"], rustflags=""),
     "rel": dict(toolchain=None, profile="release", features=["std", "vclock"], rustflags=""),
+    # what a plain `cargo build` gives a user: no optimisation at all (deep recursion stays deep,
+    # nothing is folded away) - the other debug lanes use opt-level 1 for speed
+    "dbg0": dict(toolchain=None, profile="dev", features=["std", "vclock"], rustflags="", env={"CARGO_PROFILE_DEV_OPT_LEVEL": "0"}),
     "udp": dict(toolchain=None, profile="dev", features=["std", "udp"], rustflags=""),
     "udprel": dict(toolchain=None, profile="release", features=["std", "udp"], rustflags=""),
     "nostd": dict(toolchain=None, profile="dev", features=[], rustflags=""),
@@ -58,6 +61,7 @@ def lane_env(lane):
     env = dict(BASE_ENV)
     env["RUSTFLAGS"] = ("--cfg %s %s" % (GUARD, d["rustflags"])).strip()
     env["CARGO_TARGET_DIR"] = os.path.join(TARGET, lane_build_name(lane))
+    env.update(d.get("env", {}))
     if d.get("miri"):
         env["MIRIFLAGS"] = "-Zmiri-disable-isolation"
     if "asan" in lane:
@@ -325,8 +329,8 @@ PLAN = {
               "prefix of generated well-formed documents. Every iterator is drained under a step bound; pointer-range, order, "
               "silence-after-error and to_cow == to_string are checked. Miri/ASan watch the pointer arithmetic. "
               "distinct_nontrivial = enumerated strings that yielded at least one link or attribute + distinct random strings"),
-        quick=[L("dbg", 1, 20000, 16), L("rel", 1, 20000, 16), L("asan", 1, 5000, 4), L("miri", 0, 60, 16, 1500)],
-        thorough=[L("dbg", 2, 300000, 16, 3600), L("rel", 2, 300000, 16, 3600), L("asan", 1, 50000, 8), L("miri", 0, 1500, 16, 3600)],
+        quick=[L("dbg", 1, 20000, 16), L("rel", 1, 20000, 16), L("dbg0", 1, 4000, 8), L("asan", 1, 5000, 4), L("miri", 0, 60, 16, 1500)],
+        thorough=[L("dbg", 2, 300000, 16, 3600), L("rel", 2, 300000, 16, 3600), L("dbg0", 2, 60000, 16, 3600), L("asan", 1, 50000, 8), L("miri", 0, 1500, 16, 3600)],
     ),
     "C18": dict(
         level="fault_enumeration", design="DESIGN.md#C18",
@@ -361,6 +365,19 @@ PLAN = {
         thorough=[L("dbg", 2, 1300, 16, 3600), L("rel", 2, 1300, 16, 3600)],
     ),
 }
+
+# the thorough tier repeats every property's quick debug workload without any optimisation (lane
+# dbg0) - except C02, whose parser workload is C03's
+for _pid, _d in PLAN.items():
+    if _pid == "C02" or any(l["lane"] == "dbg0" for l in _d["thorough"]):
+        continue
+    _q = [l for l in _d["quick"] if l["lane"] == "dbg"]
+    if _q:
+        _l = dict(_q[0])
+        _l["lane"] = "dbg0"
+        _l["watchdog"] = max(_l["watchdog"], 3600)
+        _d["thorough"].append(_l)
+
 
 
 # ----------------------------------------------------------------------------- running
